@@ -128,7 +128,9 @@ Lemma ok_split_uri t sc nl pa qu fr :
   ok t -> split_uri t = SOk sc nl pa qu fr -> ok pa /\ ok qu.
 Proof.
   intro H. destruct (two_slashes t) eqn:T2.
-  - rewrite split_uri_slashes by exact T2. intro E. injection E as _ _ <- <- _.
+  - destruct (existsb (fun x => 128 <=? x) t) eqn:A.
+    { unfold split_uri. rewrite firstn2_two_slashes, T2, A. discriminate. }
+    rewrite split_uri_slashes by assumption. intro E. injection E as _ _ <- <- _.
     split; [apply ok_unquote, ok_until, H | apply ok_qpart, H].
   - unfold split_uri. rewrite firstn2_two_slashes, T2. rewrite urlsplit_stages.
     destruct (existsb _ t); [discriminate|]. cbv zeta.
@@ -257,10 +259,36 @@ Record ok_request (p : parser) : Prop := {
   okr_headers : hvals_ok (headers p)
 }.
 
+Lemma strip_leading_crlf_step f s :
+  strip_leading_crlf (S f) s =
+  match s with
+  | x :: y :: s' => if (x =? 13) && (y =? 10) then strip_leading_crlf f s' else s
+  | _ => s
+  end.
+Proof.
+  destruct s as [|x [|y s']]; [reflexivity| |].
+  - destruct x as [|p]; [reflexivity|].
+    do 4 (try (destruct p as [p|p|]; try reflexivity)); reflexivity.
+  - destruct ((x =? 13) && (y =? 10)) eqn:C.
+    + apply andb_true_iff in C as [C1 C2]. apply N.eqb_eq in C1. apply N.eqb_eq in C2. subst. reflexivity.
+    + destruct x as [|p]; [reflexivity|].
+      do 4 (try (destruct p as [p|p|]; try reflexivity)); try reflexivity.
+      destruct y as [|q]; [reflexivity|].
+      do 4 (try (destruct q as [q|q|]; try reflexivity)); try reflexivity. discriminate C.
+Qed.
+
+Lemma ok_strip_leading_crlf : forall fuel s, ok s -> ok (strip_leading_crlf fuel s).
+Proof.
+  induction fuel as [|f IH]; intros s H; [exact H|].
+  rewrite strip_leading_crlf_step. destruct s as [|x [|y s']]; try exact H.
+  destruct ((x =? 13) && (y =? 10)); [|exact H].
+  apply IH. inversion H as [|? ? _ H2]; subst. inversion H2; auto.
+Qed.
+
 Lemma ok_head_of ds hp : Forall ok ds -> head_of ds hp -> ok hp.
 Proof.
   intros H (pre & i & (post & ->) & _ & ->).
-  apply ok_lstrip, ok_firstn, ok_concat. apply Forall_app in H. tauto.
+  apply ok_lstrip, ok_strip_leading_crlf, ok_firstn, ok_concat. apply Forall_app in H. tauto.
 Qed.
 
 Lemma accepted_head_ok a p0 p1 hp fl lines h1 :
@@ -268,7 +296,7 @@ Lemma accepted_head_ok a p0 p1 hp fl lines h1 :
   accepted_head a p0 p1 hp fl lines h1 -> ok fl /\ ok_request p1.
 Proof.
   intros Ha Hhp H0 AH. destruct AH as [(index & _ & -> & GL) _ AL CR _ (sc & nl & fr & SP) SC _ AF].
-  assert (Hfl : ok (rstrip_by is_bytes_ws (firstn index hp))) by (apply ok_rstrip, ok_firstn, Hhp).
+  assert (Hfl : ok (rstrip_by is_reqline_ws (firstn index hp))) by (apply ok_rstrip, ok_firstn, Hhp).
   split; [exact Hfl|].
   destruct (ok_crack_first_line _ _ _ _ Hfl CR) as (C1 & C2 & C3).
   destruct (ok_split_uri _ _ _ _ _ _ C2 SP) as (P1 & P2).
